@@ -195,7 +195,9 @@ func (e *env) eval(n ast.ExprNode) (Value, error) {
 	case *ast.VariableExpr:
 		if x.IsSystem {
 			switch strings.ToLower(x.Name) {
-			case "auto_increment_increment", "autocommit":
+			case "auto_increment_increment":
+				return IntV(e.srv.autoStep()), nil
+			case "autocommit":
 				return IntV(1), nil
 			case "version":
 				return StrV(e.srv.version), nil
